@@ -8,8 +8,11 @@ def show(ref):
     r = sh('git', 'show', f'{ref}:known_findings.json')
     return json.loads(r.stdout) if r.returncode == 0 else []
 ours, theirs = show('HEAD'), show(br)
+sh('git', 'checkout', '--', 'evidence')
 r = sh('git', 'merge', '--no-commit', '--no-ff', br)
 print(r.stdout[-1500:])
+if r.returncode != 0 and 'CONFLICT' not in r.stdout and 'Already up to date' not in r.stdout:
+    print('MERGE FAILED', r.returncode); sys.exit(1)
 st = sh('git', 'status', '--short').stdout
 conflicts = [l[3:] for l in st.splitlines() if l[:2] in ('UU', 'AA', 'DU', 'UD')]
 for c in conflicts:
